@@ -57,7 +57,7 @@ OffsetsOK(s, o) ==
 OutcomeTotal ==
   CASE v.fam = "parse" -> LET o == ParseOutcome(v.c) IN o.err \in BOOLEAN /\ (~o.err => OffsetsOK(v.c, o))
     [] v.fam = "alloc" -> LET o == ParseOutcome(v.c.s) IN ~o.err /\ OffsetsOK(v.c.s, o) /\ WellFormed(v.c.s)
-    [] v.fam = "cfgparse" -> LET o == WithCfg(ParseOutcome(v.c.s), v.c.s, v.c.cfg) IN o.err \in BOOLEAN /\ (~o.err => OffsetsOK(v.c.s, o))
+    [] v.fam = "cfgparse" -> LET o == WithCfg(ParseOutcome(v.c.s), v.c.s, v.c.env.cfg) IN o.err \in BOOLEAN /\ (~o.err => OffsetsOK(v.c.s, o))
     [] OTHER -> TRUE
 
 (* mechanism against property level: the transcription of Parse as written differs from the      *)
@@ -81,10 +81,12 @@ ViewShapeOK ==
 Export ==
   PrintT(ToJson(
     CASE v.fam = "parse" -> [fam |-> "parse", s |-> v.c, o |-> ParseOutcome(v.c), m |-> ParseM(v.c), dev |-> Deviation(v.c),
-                             strictErr |-> StrictErr(v.c), wf |-> WellFormed(v.c), ranges |-> ParseRanges(v.c), cfg |-> "default"]
-      [] v.fam = "cfgparse" -> [fam |-> "parse", s |-> v.c.s, o |-> WithCfg(ParseOutcome(v.c.s), v.c.s, v.c.cfg),
-                                m |-> WithCfg(ParseM(v.c.s), v.c.s, v.c.cfg), dev |-> Deviation(v.c.s), strictErr |-> StrictErr(v.c.s),
-                                wf |-> WellFormed(v.c.s), ranges |-> ParseRanges(v.c.s), cfg |-> v.c.cfg]
+                             strictErr |-> StrictErr(v.c), wf |-> WellFormed(v.c), ranges |-> ParseRanges(v.c),
+                             cfg |-> "default", state |-> "none", log |-> "error"]
+      [] v.fam = "cfgparse" -> [fam |-> "parse", s |-> v.c.s, o |-> WithCfg(ParseOutcome(v.c.s), v.c.s, v.c.env.cfg),
+                                m |-> WithCfg(ParseM(v.c.s), v.c.s, v.c.env.cfg), dev |-> Deviation(v.c.s), strictErr |-> StrictErr(v.c.s),
+                                wf |-> WellFormed(v.c.s), ranges |-> ParseRanges(v.c.s),
+                                cfg |-> v.c.env.cfg, state |-> v.c.env.state, log |-> v.c.env.log]
       [] v.fam = "alloc" -> [fam |-> "alloc", s |-> v.c.s, status |-> v.c.status, x |-> AllocExpect(v.c), ranges |-> ParseRanges(v.c.s)]
       [] OTHER -> v))
 
